@@ -53,6 +53,10 @@ def cases(tier, seed):
             k += 1
     for name, tdt in (('snr', 'uint8'), ('anova', 'int8'), ('nicv', 'uint8')):
         out.append(dict(gen='kseq_object', subject=name, tdtype=tdt, precision='float64', big=True, sub=core.subseed('C11big', seed, name), must=True))
+    # results read between the batches (a convergence step), several words and samples
+    for name, tdt, prec in (('snr', 'int16', 'float32'), ('anova', 'uint8', 'float64'), ('nicv', 'float32', 'float64'), ('tbuild', 'int16', 'float64')):
+        out.append(dict(gen='kseq_object', subject=name, tdtype=tdt, precision=prec, between=True, sub=core.subseed('C11btw', seed, name), must=True))
+    out.append(dict(gen='threads_ttest', sub=core.subseed('C11tt', seed), must=True))
     for kern in ('part1', 'part2', 'tmpl1', 'tmpl2', 'mia', 'ttest'):
         for tdt, prec in (('int16', 'float32'), ('float32', 'float64')):
             out.append(dict(gen='threads', kernel=kern, tdtype=tdt, precision=prec, sub=core.subseed('C11t', seed, k), must=True))
@@ -63,7 +67,7 @@ def cases(tier, seed):
     out.append(dict(gen='threads_object', sub=core.subseed('C11to', seed), must=True))
     rs = np.random.default_rng(core.subseed('C11r', seed))
     n_rand = 120 if tier == 'quick' else 5000
-    kinds = ['kseq_static'] * 5 + ['threads'] * 2 + ['sanitizer'] * 2 + ['kseq_object']
+    kinds = ['kseq_static'] * 5 + ['threads'] * 2 + ['sanitizer'] * 2 + ['kseq_object'] * 2 + ['threads_ttest']
     for j in range(n_rand):
         g = kinds[int(rs.integers(len(kinds)))]
         c = dict(gen=g, sub=int(rs.integers(2 ** 62)), tdtype=['uint8', 'int16', 'int32', 'float32', 'float64'][int(rs.integers(5))],
@@ -72,6 +76,9 @@ def cases(tier, seed):
             c['fam'] = ['part', 'tmpl'][int(rs.integers(2))]
         elif g == 'kseq_object':
             c['subject'] = ['anova', 'nicv', 'snr', 'tbuild'][int(rs.integers(4))]
+            c['between'] = bool(rs.random() < 0.5)
+        elif g == 'threads_ttest':
+            pass
         else:
             c['kernel'] = ['part1', 'part2', 'tmpl1', 'tmpl2', 'mia', 'ttest'][int(rs.integers(6))]
         out.append(c)
@@ -183,6 +190,8 @@ def run_case(case):
         r = _threads_object(t, case, rng)
     elif g == 'sanitizer':
         r = _sanitizer(t, case, rng)
+    elif g == 'threads_ttest':
+        r = _threads_ttest(t, case, rng)
     else:
         raise core.Inconclusive('unknown generator ' + g)
     numba.set_num_threads(4)
@@ -234,6 +243,9 @@ def _kseq_object(t, case, rng):
         t.count('big_batch_cases')
     T = int(rng.integers(1, 6))
     W = 1 if name == 'tbuild' else int(rng.integers(1, 3))
+    between = bool(case.get('between'))
+    if between and case.get('must'):
+        T, W = 3, (1 if name == 'tbuild' else 2)
     parts = list(range(ncls))
     if np.dtype(tdtype).kind == 'f':
         traces = gen.float_traces(rng, n, T, tdtype, offset=float(rng.choice([0.0, 1000.0])), sigma=1.0)
@@ -257,13 +269,17 @@ def _kseq_object(t, case, rng):
         for s in sizes:
             obj.update(traces[pos:pos + s], data[pos:pos + s])
             pos += s
+            if between and pos < n:
+                with np.errstate(all='ignore'):
+                    subjects.results(obj, spec)           # results read between the batches must not disturb what follows
+                t.count('results_read_between_batches')
         ran = CONTROL.choices_of(obj)
         t.count('forced_choices_recorded', len(ran))
         t.check(len(ran) == nb and (plan is None or ran == plan), 'kernel_choice_not_honoured_or_not_recorded', lambda: dict(plan=plan, ran=ran, label=label))
         with np.errstate(all='ignore'):
             res[label] = (ran, subjects.results(obj, spec))
         t.count('kernel_sequences')
-    info = dict(case=case, n=n, T=T, W=W, classes=ncls, sizes=sizes, regime=regime)
+    info = dict(case=case, n=n, T=T, W=W, classes=ncls, sizes=sizes, regime=regime, results_read_between_batches=between)
     scales = tol.result_scale(spec, traces, data) if regime == 'R' else {}
     natural = 1.0 if name != 'tbuild' else float(np.max(np.abs(traces.astype(float)))) + 1e-30
     ref_label = 'all1'
@@ -340,6 +356,50 @@ def _threads_object(t, case, rng):
                 for (la, a), (lb, b) in zip(ref, r):
                     t.check(tol.same(a, b), 'thread_count_changes_result', lambda: dict(subject=name, threads=k, label=la, diff=tol.first_diff(a, b)))
     return t.result(sig='threads_object', sample=dict(case=case, comparisons=t.checks))
+
+
+def _threads_ttest(t, case, rng):
+    """The t-test accumulator object (its update method, not only the kernel behind it) under several thread counts, for traces
+    narrower than, as wide as, and of another kind than the precision."""
+    import numba
+    from scared import ttest
+    for tdtype, prec in (('float32', 'float64'), ('float32', 'float32'), ('float64', 'float64'), ('int16', 'float64'), ('uint8', 'float32')):
+        n, T = int(rng.choice([90, 301, 1000])), int(rng.choice([1, 4, 17]))
+        if np.dtype(tdtype).kind == 'f':
+            traces = gen.float_traces(rng, n, T, 'float64', offset=float(rng.choice([0.0, 1000.0])), sigma=1.0).astype(tdtype)
+            regime = 'R'
+        else:
+            traces = gen.int_traces(rng, n, T, tdtype, gen.exact_bound(n, prec, mode='acc'))
+            regime = 'E'
+        x = traces.astype('float64')
+        exact = [x.sum(0), (x * x).sum(0)]
+        bounds = [np.abs(x).sum(0), (x * x).sum(0)]
+        sizes = gen.split_sizes(rng, n, kind='random', kmax=4)
+        ref = None
+        for k in (1, 2, 16, 1, 5):
+            numba.set_num_threads(k)
+            acc = ttest.TTestThreadAccumulator(precision=prec)
+            pos = 0
+            for s_ in sizes:
+                acc.update(traces[pos:pos + s_])
+                pos += s_
+            t.count('thread_counts_run')
+            t.count('ttest_objects_under_thread_counts')
+            got = [np.asarray(acc.sum), np.asarray(acc.sum_squared)]
+            info = dict(case=case, tdtype=tdtype, precision=prec, n=n, T=T, sizes=sizes, threads=k, regime=regime)
+            t.check(int(acc.processed_traces) == n, 'ttest_trace_count', lambda: dict(info, got=int(acc.processed_traces)))
+            for i, nm in enumerate(('sum', 'sum_squared')):
+                if regime == 'E':
+                    t.check(np.array_equal(got[i].astype('float64'), exact[i]), 'thread_count_changes_accumulators', lambda: dict(info, accumulator=nm, diff=tol.first_diff(got[i].astype('float64'), exact[i])))
+                else:
+                    # recursive summation in the precision of terms converted exactly from the traces' own type
+                    lim = 2 * n * tol.eps_of(prec) * bounds[i] + 1e-300
+                    d = np.abs(got[i].astype('float64') - exact[i])
+                    t.metric('ratio_ttest_accumulator_vs_exact', float(np.max(d / lim)))
+                    t.check(bool(np.all(d <= lim)), 'thread_count_changes_accumulators', lambda: dict(info, accumulator=nm, worst_ratio=float(np.max(d / lim))))
+            if ref is None:
+                ref = got
+    return t.result(sig=f"thtt|{case['sub']}", sample=dict(case=case, comparisons=t.checks))
 
 
 def _sanitizer(t, case, rng):
